@@ -122,6 +122,17 @@ __CPROVER_ensures((RV == CKR_OK && !SES(NULL_OUT)) ==> (OUT(fin_n) == 1 && OUT(p
 __CPROVER_ensures((RV != CKR_OK && RV != CKR_BUFFER_TOO_SMALL && ACTIVE(0x4)) ==> (SFX(RESETOP_N) == 1 && UNTOUCHED))
 __CPROVER_ensures(SFX(SETOPTYPE_N) == 0 && CNT(SET) == 0)
 __CPROVER_assigns(__CPROVER_object_whole(vp_out), VP_SOFTHSM_FRAME);
+/* C_VerifyFinal (MacVerifyFinal / AsymVerifyFinal): only a signature of exactly the fixed size is looked at; the operation always ends */
+CK_RV vp_verifyfinal1(void)
+__CPROVER_requires(PRE && !SES(NULL_OUT))
+__CPROVER_ensures((SES(INIT) && SES(VALID) && (SES(OPTYPE) != 0x6 || !SES(ALLOW_MULTI))) ==> (RV == CKR_OPERATION_NOT_INITIALIZED && VP_NO_EFFECT && OUT(fin_n) == 0))
+#define VFACT (ACTIVE(0x6) && SES(ALLOW_MULTI))
+__CPROVER_ensures((VFACT && !FREADY) ==> (RV == CKR_OPERATION_NOT_INITIALIZED && SFX(RESETOP_N) == 1 && OUT(fin_n) == 0))
+__CPROVER_ensures((VFACT && FREADY && IN(siglen_in) != SIZE) ==> (RV == CKR_SIGNATURE_LEN_RANGE && SFX(RESETOP_N) == 1 && OUT(fin_n) == 0))
+__CPROVER_ensures((VFACT && FREADY && IN(siglen_in) == SIZE) ==> (OUT(fin_n) == 1 && OUT(prim_siglen) == SIZE && RV == (IN(prim_ok) ? CKR_OK : CKR_SIGNATURE_INVALID) && SFX(RESETOP_N) == 1))
+__CPROVER_ensures(UNTOUCHED && OUT(prim_n) == 0 && SFX(SETOPTYPE_N) == 0 && CNT(SET) == 0)
+__CPROVER_assigns(__CPROVER_object_whole(vp_out), VP_SOFTHSM_FRAME);
+void vp_call_C_VerifyFinal(void) { vp_rv = vp_verifyfinal1(); }
 void vp_call_C_DigestFinal(void) { vp_rv = vp_digestfinal1(); }
 void vp_call_C_SignFinal(void) { vp_rv = vp_signfinal1(); }
 void vp_call_C_Digest(void) { vp_rv = vp_digest1(); }
@@ -137,4 +148,5 @@ void h_decrypt1(void) { HAV(); vp_call_C_Decrypt(); VP_COVER(vp_rv == CKR_OK && 
 void h_signfinal1(void) { HAV(); vp_call_C_SignFinal(); VP_COVER(vp_rv == CKR_OK && !SES(NULL_OUT) && MAC); VP_COVER(vp_rv == CKR_OK && !SES(NULL_OUT) && !MAC); VP_COVER(vp_rv == CKR_BUFFER_TOO_SMALL); VP_COVER(vp_rv == CKR_USER_NOT_LOGGED_IN); VP_COVER(vp_rv == CKR_GENERAL_ERROR); }
 void h_digest1(void) { HAV(); vp_call_C_Digest(); VP_COVER(vp_rv == CKR_OK && !SES(NULL_OUT) && SIZE == 16 && IN(datalen) == 0); VP_COVER(vp_rv == CKR_BUFFER_TOO_SMALL); VP_COVER(vp_rv == CKR_OK && SES(NULL_OUT)); VP_COVER(vp_rv == CKR_GENERAL_ERROR && OUT(fin_n) == 1); }
 void h_digestfinal1(void) { HAV(); vp_call_C_DigestFinal(); VP_COVER(vp_rv == CKR_OK && !SES(NULL_OUT) && SIZE == 16); VP_COVER(vp_rv == CKR_BUFFER_TOO_SMALL); VP_COVER(vp_rv == CKR_OK && SES(NULL_OUT)); VP_COVER(vp_rv == CKR_GENERAL_ERROR && OUT(fin_n) == 1); }
+void h_verifyfinal1(void) { HAV(); vp_call_C_VerifyFinal(); VP_COVER(vp_rv == CKR_OK && MAC); VP_COVER(vp_rv == CKR_OK && !MAC); VP_COVER(vp_rv == CKR_SIGNATURE_LEN_RANGE); VP_COVER(vp_rv == CKR_SIGNATURE_INVALID); }
 void h_verify1(void) { HAV(); vp_call_C_Verify(); VP_COVER(vp_rv == CKR_OK && MAC); VP_COVER(vp_rv == CKR_OK && !MAC && RAW); VP_COVER(vp_rv == CKR_SIGNATURE_LEN_RANGE); VP_COVER(vp_rv == CKR_SIGNATURE_INVALID); }
